@@ -102,6 +102,7 @@ fn main() {
                 "c08_poison" => ("C08", c08::part_poison(tier)),
                 "c08_dap" => ("C08", c08::part_dap_args(tier)),
                 "c16_sweep" => ("C16", c16::part_sweep(tier)),
+                "c19_closures" => ("C19", c19::part_c19_closures(tier)),
                 "c16_vard" => ("C16", c06s::part_vard(tier)),
                 "c18_shlib" => ("C18", c18s::part_shlib(tier)),
                 "c17_names" => ("C17", c17e::part_names(tier)),
@@ -294,6 +295,7 @@ fn run_check(id: &str, tier: Tier) -> i32 {
         "C19" => {
             let mut r = Report::new("C19", tier, "exploration");
             r.parts.push(c19::part_c19(tier));
+            r.parts.push(c19::part_c19_closures(tier));
             r.parts.push(c19r::part_registers(tier, "C19"));
             finish(r)
         }
@@ -341,6 +343,19 @@ fn replay(path: &str) -> i32 {
         "c15" => c15::replay(rp),
         "c16" => c16::replay(rp),
         "c19" => c19::replay(rp),
+        "c19-closure" => match c19::run_closure(rp["move"].as_bool().unwrap_or(true)) {
+            Ok(v) => {
+                let f = v["findings"].as_array().cloned().unwrap_or_default();
+                for x in &f {
+                    println!("violated {}: {}", x["sig"], x["detail"]);
+                }
+                if f.is_empty() { 0 } else { 1 }
+            }
+            Err(e) => {
+                eprintln!("{e}");
+                2
+            }
+        },
         "c08-parse" => c08::replay(rp),
         "c04" => c04::replay(rp),
         e => {
